@@ -4,7 +4,7 @@ PLANS = {
     "C01": {"quick": {"runs": 1200, "budget_s": 80, "det": 16}, "thorough": {"runs": 60000, "budget_s": 1500, "det": 64}},
     "C11": {"quick": {"runs": 1100, "budget_s": 80, "det": 4}, "thorough": {"runs": 12000, "budget_s": 1500, "det": 16}},
     "C02": {"quick": {"runs": 12000, "budget_s": 75, "det": 32, "also": [("C02P", 5000)]},
-            "thorough": {"runs": 900000, "budget_s": 1500, "det": 256, "also": [("C02P", 400000)]}},
+            "thorough": {"runs": 900000, "budget_s": 1100, "det": 256, "also": [("C02P", 400000)], "also_budget_s": 400}},
     "C05": {"quick": {"runs": 16000, "budget_s": 75, "det": 32}, "thorough": {"runs": 1200000, "budget_s": 1500, "det": 256}},
     "C10": {"quick": {"runs": 16000, "budget_s": 75, "det": 32}, "thorough": {"runs": 1200000, "budget_s": 1500, "det": 256}},
     "C18": {"quick": {"runs": 60000, "budget_s": 60, "det": 64}, "thorough": {"runs": 3000000, "budget_s": 1200, "det": 512}},
